@@ -169,6 +169,7 @@ PROPS = {
                     ('Cex/C08b_syn', 'bits'), ('Cex/C14_syn', 'evstep')],
         'replay_kind': 'layout',
         'cex_filter': 'panic',
+        'bonus': ['Props/C08_kb'],
         'extra': c08_extra, 'extra_always': True,
         'assumptions': ['stack use and code generation are outside any source-level model'],
     },
@@ -206,6 +207,7 @@ PROPS = {
         'corr': ['Corr/Set1', 'Corr/Set2'], 'needs_corr': ['Syn/Set1', 'Syn/Set2', 'ExtI/Scan'],
         'cex_ext': 'Cex/C13_ext', 'cex_syn': 'Cex/C13_syn',
         'replay_kind': 'c13',
+        'bonus': ['Props/E2E_full'],
     },
     'C07': {
         'lib': LIB + ['Check/Scan', 'Check/C07'],
